@@ -635,6 +635,23 @@ def make_slice(base, key):
     return View(base, dims, fixed, shape)
 
 
+class Value(AArr):
+    """an array whose elements are an integer function of their index (arange, eye, linspace positions)"""
+
+    _owns = True
+
+    def __init__(self, shape, dtype, fn, tag):
+        self.fn = fn
+        self.tag = tag
+        super().__init__(shape, dtype)
+
+    def at(self, idx):
+        return ("val", self.tag, self.fn(tuple(idx)))
+
+    def sum_mult(self, rng, idx, q):
+        return 0
+
+
 class Opaque(AArr):
     _owns = True
     _children = ('deps',)
@@ -918,6 +935,25 @@ class Namespace:
 
     def broadcast_shapes(self, *shapes):
         return broadcast_shapes(*shapes)
+
+    def arange(self, start, stop=None, step=1, dtype=None, **kw):
+        if stop is None:
+            start, stop = 0, start
+        if not (step > 0):
+            raise Unsupported("arange with a non-positive symbolic step")
+        n = -((-(stop - start)) // step)
+        if n < 0:
+            n = 0
+        return Value((n,), dtype or _np.int64, lambda idx, start=start, step=step: start + idx[0] * step, "arange")
+
+    def eye(self, n_rows, n_cols=None, k=0, dtype=None, **kw):
+        n_cols = n_rows if n_cols is None else n_cols
+        return Value((n_rows, n_cols), dtype or _np.float64, lambda idx, k=k: sx.ite(idx[1] - idx[0] == k, 1, 0), "eye")
+
+    def zeros_like(self, x, dtype=None, **kw):
+        if not isinstance(x, AArr):
+            return self._real.zeros_like(x, dtype=dtype)
+        return Value(x.shape, dtype or x.dtype, lambda idx: 0, "eye")
 
     def broadcast_to(self, x, shape):
         shape = tuple(shape)
